@@ -71,7 +71,7 @@ def fast_path(rep, prog, rule):
         else:
             rep.bad(rule, "gated|%s" % c.name.rsplit("::", 1)[-1], c.at,
                     "%s is reachable without copy_image having failed" % c.name)
-    al = flow.Aliases(f, [f.param_index("dst_view")])
+    al = flow.Aliases(f, [f.param_by_role("dst_view")])
     tail = reachable_from(f, ok_s)
     offenders = [c for c in f.calls() if c.bb in tail and al.arg_positions(c)
                  and not c.name.endswith(("::width", "::height"))]
@@ -82,7 +82,8 @@ def fast_path(rep, prog, rule):
         rep.ok(rule, "success-tail", copy.at, "success edge returns without touching dst")
     # the copy must see the cropped view and the destination
     a0, a1 = sym.operand(copy.args[0]), sym.operand(copy.args[1])
-    if _mentions_param(a1, "dst_view") and _has(a0, lambda x: x[0] == "callat" and x[2] == "crop"):
+    _di = f.param_by_role("dst_view")
+    if _di and _mentions_param(a1, f.local_name(_di)) and _has(a0, lambda x: x[0] == "callat" and x[2] == "crop"):
         rep.ok(rule, "copy-args", copy.at, "%s, %s" % (fmt(a0)[:80], fmt(a1)))
     else:
         rep.unk(rule, "copy-args", copy.at, "%s, %s" % (fmt(a0)[:80], fmt(a1)))
@@ -162,8 +163,13 @@ def copy_cond(rep, prog, rule):
             rep.bad(rule, "integral|%s" % fld, f.loc,
                     "copy_image can return Ok without `crop_box.%s == crop_box.%s.round()` having "
                     "been established: a fractional crop box would be copied unresampled" % (fld, fld))
+    di = f.param_by_role("dst_view")
+    DST = f.local_name(di) if di else None
     for ax in ("width", "height"):
-        hit = [d for d in dims if d[0] == ax and d[1] == ax and "dst_view" in d[2]]
+        if DST is None:
+            rep.unk(rule, "dim|%s" % ax, f.loc, "the destination parameter of copy_image is not identified")
+            continue
+        hit = [d for d in dims if d[0] == ax and d[1] == ax and DST in d[2]]
         cross = [d for d in dims if d[0] == ax and d[1] != ax]
         if hit:
             rep.ok(rule, "dim|%s" % ax, f.loc, "dst.%s() == crop_box.%s" % (ax, ax))
@@ -306,7 +312,7 @@ def none_none(rep, prog, rule):
     rep.rule(rule, "do_convolution writes the destination on every non-degenerate path, "
              "including the arm where neither pass is required (must-write summary)")
     f = prog.fn_by_name("resizer::Resizer::do_convolution")
-    ok, why = mw.mw(f, f.param_index("dst_view"))
+    ok, why = mw.mw(f, f.param_by_role("dst_view"))
     if ok is True:
         rep.ok(rule, "do_convolution", f.loc, "all arms write")
     elif ok is False:
